@@ -7,6 +7,7 @@ import (
 
 	"verifharness/hk"
 	"verifharness/sqlsched"
+	"verifharness/util"
 )
 
 func init() { hk.Register("c23", Run) }
@@ -22,7 +23,9 @@ const (
 	KDelete    // x=k
 	KUpdAdd    // x=k y=col z=d      UPDATE t SET col = col + d WHERE pk = k
 	KSelectKey // x=k
-	KDoltCommit
+	KDoltCommit    // CALL dolt_commit('-m', ..): commits what is staged
+	KDoltAdd       // CALL dolt_add('-A')
+	KDoltCommitAll // CALL dolt_commit('-a', '-m', ..)
 )
 
 type Case struct {
@@ -31,11 +34,16 @@ type Case struct {
 	Autos []int   `json:"autos"` // sessions with autocommit on
 	Steps [][]int `json:"steps"` // [sess, kind, x, y, z]
 	Raw   bool    `json:"raw,omitempty"`
+	Mode  string  `json:"mode,omitempty"` // "roots": also report HEAD / STAGED / WORKING of the branch after every statement
 }
 
 type Obs struct {
 	Steps []sqlsched.StepObs `json:"steps"`
 	Final [][]int            `json:"final"` // committed table as a fresh session sees it
+	// roots mode: per statement, the branch's HEAD, STAGED and WORKING table as an independent reader sees them
+	Head    [][][]int `json:"head,omitempty"`
+	Staged  [][][]int `json:"staged,omitempty"`
+	Working [][][]int `json:"working,omitempty"`
 }
 
 var cols = []string{"a", "b"}
@@ -62,7 +70,11 @@ func Render(st []int) string {
 	case KSelectKey:
 		return fmt.Sprintf("SELECT pk, a, b FROM t WHERE pk = %d", x)
 	case KDoltCommit:
-		return "CALL dolt_commit('-A', '--allow-empty', '-m', 'c')"
+		return "CALL dolt_commit('-m', 'c')"
+	case KDoltAdd:
+		return "CALL dolt_add('-A')"
+	case KDoltCommitAll:
+		return "CALL dolt_commit('-a', '-m', 'c')"
 	}
 	return "SELECT 'bad kind'"
 }
@@ -83,15 +95,34 @@ func Run(raw json.RawMessage) (any, error) {
 	}
 	defer w.Close()
 	var o Obs
+	var reader *util.Session
+	if c.Mode == "roots" {
+		if reader, err = w.Fresh(); err != nil {
+			return nil, err
+		}
+	}
 	for _, st := range c.Steps {
 		so := sqlsched.Exec(w.Sess[st[0]], Render(st))
-		if st[1] == KDoltCommit && so.Err == 0 {
-			so.Rows = [][]int{} // commit hash is not an observable
+		if st[1] >= KDoltCommit {
+			so.Rows = [][]int{} // commit hash / status are not observables
+			so.Aff = 0
 		}
 		if !c.Raw {
 			so.Msg = ""
 		}
 		o.Steps = append(o.Steps, so)
+		if reader != nil {
+			reader.Exec("ROLLBACK") // read the branch as of now
+			h := sqlsched.Exec(reader, "SELECT pk, a, b FROM t AS OF 'HEAD'")
+			sg := sqlsched.Exec(reader, "SELECT pk, a, b FROM t AS OF 'STAGED'")
+			wk := sqlsched.Exec(reader, "SELECT pk, a, b FROM t")
+			if h.Err != 0 || sg.Err != 0 || wk.Err != 0 {
+				return nil, fmt.Errorf("roots read: %s %s %s", h.Msg, sg.Msg, wk.Msg)
+			}
+			o.Head = append(o.Head, h.Rows)
+			o.Staged = append(o.Staged, sg.Rows)
+			o.Working = append(o.Working, wk.Rows)
+		}
 	}
 	f, err := w.Fresh()
 	if err != nil {
